@@ -135,6 +135,7 @@ class Run(object):
         self.deq_pending = {}          # k -> number of _dequeue tasks spawned and not yet past store.get
         self.handoff_cause = {}
         self.racing = set()
+        self.double_attempts = []
 
     def log(self, l):
         self.labels.append(l)
@@ -254,6 +255,8 @@ def run_case(case, model):
                 ts = store.meta_db[id]['timestamp'] if id in store.meta_db else None
                 excused = R.flushed_since.get(k, False)
                 R.attempt_log.append((k, clock.now, attempts, ts, excused or R.handoff_cause.get(k) == 'f'))
+                if k in R.inflight:
+                    R.double_attempts.append((k, R.rel(clock.now)))
                 gate, box = Event(), {}
                 R.inflight[k] = (gate, box)
                 gate.wait()
@@ -609,6 +612,9 @@ def run_case(case, model):
                 hits.append(hit('c12.attempt-before-due-time' + ('.after-racing-announce' if k in R.racing else ''), 'a retry was handed to the relay before the time the backoff policy chose and no flush asked for it',
                                 observed={'message': k, 'at': R.rel(t), 'due': R.rel(ts), 'attempt': attempts}))
                 break
+        if R.double_attempts:
+            hits.append(hit('c03.second-attempt-while-one-is-in-flight', 'a second delivery attempt of a message was started while one was still in flight',
+                            observed={'message': R.double_attempts[0][0], 'at': R.double_attempts[0][1]}))
         # ---- model replay
         pre = []
         chunks = []
